@@ -105,17 +105,82 @@ def simp(ir):
         a, b, c = simp(ir.a), simp(ir.b), ir.c
         if _same(a, b):
             return a
-        while c.startswith("!"):
-            c = c[1:]
-            if c.startswith("(") and c.endswith(")") and _balanced(c[1:-1]):
-                c = c[1:-1]
-            a, b = b, a
+        if _negative_head(c):                           # canonical polarity: test the positive form
+            c, a, b = neg_term(c), b, a
         if isinstance(b, Ite) and _same(a, b.a):
             return simp(Ite(_or(c, b.c), a, b.b))
         if isinstance(a, Ite) and _same(b, a.b):
             return simp(Ite(_and(c, a.c), a.a, b))
         return Ite(c, a, b)
     return ir
+
+
+def _split_top(t: str, op: str) -> list[str] | None:
+    """`(a op b op c)` -> [a, b, c] (top level only)."""
+    if not (t.startswith("(") and t.endswith(")") and _balanced(t[1:-1])):
+        return None
+    body, parts, d, cur, i = t[1:-1], [], 0, "", 0
+    while i < len(body):
+        ch = body[i]
+        d += ch == "("
+        d -= ch == ")"
+        if d == 0 and body.startswith(f" {op} ", i):
+            parts.append(cur)
+            cur = ""
+            i += len(op) + 2
+            continue
+        cur += ch
+        i += 1
+    parts.append(cur)
+    other = "&&" if op == "||" else "||"
+    if len(parts) < 2 or any(_split_top(f"({x})", other) for x in parts if not x.startswith("(")):
+        return None
+    return parts
+
+
+_COMPL = {"<": "≥", "≥": "<", "≤": ">", ">": "≤", "=": "≠", "≠": "="}
+
+
+def neg_term(t: str) -> str:
+    """The negation of a Bool term, pushed inside (Int comparisons are complemented: exact on a total order)."""
+    if t.startswith("!"):
+        u_ = t[1:]
+        return u_[1:-1] if u_.startswith("(") and u_.endswith(")") and _balanced(u_[1:-1]) else u_
+    if t == "limit.isNone":
+        return "limit.isSome"
+    if t == "limit.isSome":
+        return "limit.isNone"
+    if t.startswith("decide (") and t.endswith(")") and _balanced(t[len("decide ("):-1]):
+        inner = t[len("decide ("):-1]
+        d = 0
+        for i, ch in enumerate(inner):
+            d += ch == "("
+            d -= ch == ")"
+            if d == 0 and ch in _COMPL and inner[i - 1] == " " and inner[i + 1] == " ":
+                return f"decide ({inner[:i]}{_COMPL[ch]}{inner[i + 1:]})"
+    for op, other in (("||", "&&"), ("&&", "||")):
+        parts = _split_top(t, op)
+        if parts:
+            return "(" + f" {other} ".join(neg_term(x) for x in parts) + ")"
+    return f"!{t}" if _atomic(t) else f"!({t})"
+
+
+def _negative_head(c: str) -> bool:
+    """Polarity of the first atom of a condition: `isSome`, `≤`, `≥`, `≠` and `!…` count as negative."""
+    for op in ("||", "&&"):
+        parts = _split_top(c, op)
+        if parts:
+            return _negative_head(parts[0])
+    if c.startswith("!") or c == "limit.isSome":
+        return True
+    if c.startswith("decide ("):
+        inner, d = c[len("decide ("):-1], 0
+        for i, ch in enumerate(inner):
+            d += ch == "("
+            d -= ch == ")"
+            if d == 0 and ch in _COMPL and inner[i - 1] == " ":
+                return ch in "≤≥≠"
+    return False
 
 
 def _balanced(t: str) -> bool:
@@ -460,7 +525,7 @@ class Tr:
     def neg(self, b: V) -> V:
         if b.k == "const":
             return const(not b.c)
-        return V("bool", b.t[1:] if b.t.startswith("!") else f"!{self.par(b.t)}")
+        return V("bool", neg_term(b.t))
 
     # ---- expressions (CPS: kv(st, value))
     def evals(self, es: list, st: St, kvs, k: K, acc=()):
@@ -666,9 +731,12 @@ class Tr:
         if any(isinstance(a, ast.Starred) for a in e.args) or any(kw.arg is None for kw in e.keywords):
             raise Unsupported(f"star arguments in {u(e)[:50]}")
         # any(<generator over self._tasks>)
-        if isinstance(e.func, ast.Name) and e.func.id == "any" and len(e.args) == 1 and isinstance(e.args[0], (ast.GeneratorExp, ast.ListComp)) \
-                and "any" not in st.env:
-            return self.any_gen(e.args[0], st, kv, k)
+        if isinstance(e.func, ast.Name) and e.func.id in ("any", "all") and len(e.args) == 1 and not e.keywords \
+                and isinstance(e.args[0], (ast.GeneratorExp, ast.ListComp)) and e.func.id not in st.env:
+            if e.func.id == "any":
+                return self.any_gen(e.args[0], st, kv, k, False)
+            # all(p …) = not any(not p …)
+            return self.any_gen(e.args[0], st, lambda s2, v: kv(s2, self.neg(v)), k, True)
 
         def with_f(s2, f: V):
             def with_args(s3, vs):
@@ -847,7 +915,7 @@ class Tr:
         raise Unsupported(f"method .{name} of a {o.k}")
 
     # ---- any(… for task in self._tasks)
-    def any_gen(self, g, st: St, kv, k: K):
+    def any_gen(self, g, st: St, kv, k: K, negate_elt: bool = False):
         if len(g.generators) != 1 or g.generators[0].ifs or g.generators[0].is_async or not isinstance(g.generators[0].target, ast.Name):
             raise Unsupported("generator in any()")
 
@@ -860,7 +928,7 @@ class Tr:
             def got(s3, v):
                 if not s3.same_effects(inner):
                     raise Unsupported("any(): the element expression changes the state")
-                box.append(self.truth(v, s3))
+                box.append(self.neg(self.truth(v, s3)) if negate_elt else self.truth(v, s3))
                 return Leaf("·")
             self.eval(g.elt, inner, got, k)
             if len(box) != 1 or box[0].k == "const":
@@ -955,13 +1023,35 @@ class Tr:
             v = st0.env.get(nm)
             if v is not None and v.k == "const" and isinstance(v.c, int) and not isinstance(v.c, bool) and v.c >= 0:
                 st0.frames[-1].env[nm] = V("nat", str(v.c))
+        probe = self.cond(s.test, st0, lambda sx: Leaf("T"), lambda sx: Leaf("F"), k)
+        if isinstance(probe, Leaf) and probe.t == "F":      # the test is false right away (a flag that was just set)
+            return k.normal(st)
         carried = self.runtime_vars(st0)
         pnames, inner = self.abstract(st0, carried)
-        fname = self.fresh(f"{self.prefix}_loop")
+        entry_names = set(st0.env)                         # (names first bound inside the body are not loop-carried)
+        flags = lambda sx: tuple(sorted((nm, v.c) for nm, v in sx.env.items()                                         # noqa: E731
+                                        if nm in stored and nm in entry_names and v.k == "const"))
+        flags0 = flags(st0)
+        mkey = ("loop", id(s), flags0, tuple(pnames), tuple(f.fname for f in st0.frames))
+        if mkey in self.memo:                                # this specialisation exists already (or is being generated)
+            fname0 = self.memo[mkey]
+            if st0.seg == fname0:
+                raise Unsupported("a loop iteration that passes no await")
+            return Leaf(f"{fname0} " + " ".join(self.par(a) for a in self.fixed_args(st0) + self.carried_args(st0, carried)))
+        fname = self.memo[mkey] = self.fresh(f"{self.prefix}_loop")
         sig = self.fixed_params(st0) + [(pn, RUNTIME[v.k]) for pn, (_, _, v) in zip(pnames, carried)]
         call_of = lambda sx: Leaf(f"{fname} " + " ".join(self.par(a) for a in self.fixed_args(sx) + self.carried_args(sx, carried)))  # noqa: E731
 
         def again(sx):
+            if flags(sx) != flags0:
+                # a flag re-assigned in the body has another (known) value now: the loop as it is from THAT state
+                if self.depth > 10:
+                    raise Unsupported("loop flags keep changing")
+                self.depth += 1
+                try:
+                    return self.while_stmt(s, sx, k)
+                finally:
+                    self.depth -= 1
             if sx.seg == fname:
                 raise Unsupported("a loop iteration that passes no await")
             return call_of(sx)
@@ -975,7 +1065,7 @@ class Tr:
             inner = inner.copy(ca="t")
         loop_k = K(normal=again, raise_=k.raise_, ret=k.ret, brk=after, cont=again)
         body = self.cond(s.test, inner, lambda sx: self.block(s.body, sx, loop_k), after, k)
-        self.define(fname, sig, body, f"the `while {u(s.test)}:` loop of `{st.frames[-1].fname}`, from its head to the next await")
+        self.define(fname, sig, body, f"the `while` loop of `{st.frames[-1].fname}`, from its head to the next await")
         return call_of(st0)
 
     def carried_args(self, st: St, carried) -> list[str]:
